@@ -127,6 +127,7 @@ def search(run, info):
     # ... and the other rule visitors against their Coq models (facts of the resolved library), on the same sample
     rl_n, rl_bad = rules_corr.check(run, [[(f[0], c["_texts"][f[0]]) for f in c["files"]] for c in cases[::step]], info, "c06")
     ty_n, ty_bad = rules_corr.check_types(run, [[(f[0], c["_texts"][f[0]]) for f in c["files"]] for c in cases[::step]], info, "c06")
+    ek_n, ek_bad = rules_corr.check_exprkind(run, [[(f[0], c["_texts"][f[0]]) for f in c["files"]] for c in cases[::step]], info, "c06")
     for gi, (kind, code, decls, idxs) in enumerate(groups):
         obs = {}
         for ci in idxs:
